@@ -1,6 +1,7 @@
 (* driver.ml - hand-written glue (trusted): reads a case file, runs the
    extracted model (Model), prints one canonical result line per case.
    Same line formats as the Go harness. *)
+module BigZ = Z
 open Model
 module String = Stdlib.String
 module List = Stdlib.List
@@ -83,6 +84,101 @@ let parse_line (line : string) : (string * string) list =
     (String.split_on_char '\t' line)
 let field c k = try List.assoc k c with Not_found -> ""
 
+(* ---------- oracles: Go standard-library behaviour (trusted) ---------- *)
+let is_digit_c c = c >= '0' && c <= '9'
+(* strconv.ParseFloat for plain decimal spellings [+-]d*[.d*][e[+-]d+]; anything
+   else (inf, nan, hex floats, underscores) is unknown to this oracle *)
+let go_parse_float (s : string) : float option option =
+  let n = String.length s in
+  let i = ref 0 in
+  if !i < n && (s.[!i] = '+' || s.[!i] = '-') then incr i;
+  let d0 = !i in
+  while !i < n && is_digit_c s.[!i] do incr i done;
+  let nd = ref (!i - d0) in
+  if !i < n && s.[!i] = '.' then begin
+    incr i; let d1 = !i in
+    while !i < n && is_digit_c s.[!i] do incr i done;
+    nd := !nd + (!i - d1) end;
+  let ok = ref (!nd > 0) in
+  if !ok && !i < n && (s.[!i] = 'e' || s.[!i] = 'E') then begin
+    incr i;
+    if !i < n && (s.[!i] = '+' || s.[!i] = '-') then incr i;
+    let d2 = !i in
+    while !i < n && is_digit_c s.[!i] do incr i done;
+    if !i = d2 then ok := false end;
+  if !ok && !i = n then begin
+    let f = float_of_string s in
+    if Float.is_integer f || true then
+      (if Float.abs f = Float.infinity then Some None (* out of range: Go reports an error *) else Some (Some f))
+    else None end
+  else begin
+    (* decide between "syntax error" (plain garbage) and "unknown" (forms Go accepts that we do not model) *)
+    let lower = String.lowercase_ascii s in
+    let has sub = try ignore (Str.search_forward (Str.regexp_string sub) lower 0); true with Not_found -> false in
+    if n = 0 then Some None
+    else if has "inf" || has "nan" || has "0x" || has "_" || has "p" then None
+    else Some None
+  end
+
+let parse_float_oracle (s : str) =
+  match go_parse_float (string_of_str s) with
+  | None -> None
+  | Some None -> Some None
+  | Some (Some f) -> Some (Some (Float64.of_float f))
+
+let float_bits (f : float) : string = Printf.sprintf "%016Lx" (Int64.bits_of_float f)
+
+(* ---------- canonical AST dump (same format as harness/astdump.go) ---------- *)
+let op_lit (t : tokty) : string = match t with TIn -> "in" | _ -> string_of_str (tokty_name t)
+let rec z_to_string (z : z) : string =
+  let rec pos_to_z p = match p with XH -> BigZ.one | XO p -> BigZ.mul (BigZ.of_int 2) (pos_to_z p) | XI p -> BigZ.add BigZ.one (BigZ.mul (BigZ.of_int 2) (pos_to_z p)) in
+  match z with Z0 -> "0" | Zpos p -> BigZ.to_string (pos_to_z p) | Zneg p -> "-" ^ BigZ.to_string (pos_to_z p)
+
+let rec dump_expr (b : Buffer.t) (e : expr) : unit =
+  let add = Buffer.add_string b in
+  match e with
+  | EInt (t, v) -> add (Printf.sprintf "(int %s %s)" (hxs t) (z_to_string v))
+  | EFloat (t, f) -> add (Printf.sprintf "(float %s %s)" (hxs t) (float_bits (Float64.to_float f)))
+  | EStr s -> add (Printf.sprintf "(str %s)" (hxs s))
+  | EBool true -> add "(bool 1)"
+  | EBool false -> add "(bool 0)"
+  | ERegexp (v, fl) -> add (Printf.sprintf "(re %s %s)" (hxs v) (hxs fl))
+  | EIdent n -> add (Printf.sprintf "(id %s)" (hxs n))
+  | EPrefix (op, r) -> add (Printf.sprintf "(pre %s " (hx (op_lit op))); dump_expr b r; add ")"
+  | EInfix (op, l, r) -> add (Printf.sprintf "(in %s " (hx (op_lit op))); dump_expr b l; add " "; dump_expr b r; add ")"
+  | EPostfix (n, op) -> add (Printf.sprintf "(post %s %s)" (hxs n) (hx (op_lit op)))
+  | ETernary (c, t, f) -> add "(tern "; dump_expr b c; add " "; dump_expr b t; add " "; dump_expr b f; add ")"
+  | EArray l -> add "(arr"; List.iter (fun x -> add " "; dump_expr b x) l; add ")"
+  | EHash l -> add "(hash"; List.iter (fun (k, v) -> add " ("; dump_expr b k; add " "; dump_expr b v; add ")") l; add ")"
+  | EIndex (l, i) -> add "(idx "; dump_expr b l; add " "; dump_expr b i; add ")"
+  | ECall (f, args) -> add "(call "; dump_expr b f; List.iter (fun x -> add " "; dump_expr b x) args; add ")"
+  | EAssign (n, v) -> add (Printf.sprintf "(assign %s " (hxs n)); dump_expr b v; add ")"
+  | ELocal n -> add (Printf.sprintf "(local %s)" (hxs n))
+  | EIf (c, cons, alt) ->
+    add "(if "; dump_expr b c; add " "; dump_block b cons;
+    (match alt with None -> add " noelse" | Some a -> add " "; dump_block b a); add ")"
+  | EWhile (c, body) -> add "(while "; dump_expr b c; add " "; dump_block b body; add ")"
+  | EForeach (idx, id, v, body) ->
+    add (Printf.sprintf "(foreach %s %s " (hxs idx) (hxs id)); dump_expr b v; add " "; dump_block b body; add ")"
+  | EFunction (n, ps, body) ->
+    add (Printf.sprintf "(fn %s (%s) " (hxs n) (String.concat " " (List.map hxs ps))); dump_block b body; add ")"
+  | ESwitch (v, cs) ->
+    add "(switch "; dump_expr b v;
+    List.iter (fun ((d, es), blk) ->
+      add " (case";
+      if d then add " default" else List.iter (fun x -> add " "; dump_expr b x) es;
+      add " "; dump_block b blk; add ")") cs;
+    add ")"
+and dump_stmt b = function
+  | SReturn e -> Buffer.add_string b "(ret "; dump_expr b e; Buffer.add_string b ")"
+  | SExpr e -> Buffer.add_string b "(es "; dump_expr b e; Buffer.add_string b ")"
+and dump_block b l =
+  Buffer.add_string b "(block"; List.iter (fun s -> Buffer.add_char b ' '; dump_stmt b s) l; Buffer.add_string b ")"
+let dump_program (p : stmt list) : string =
+  let b = Buffer.create 256 in
+  Buffer.add_string b "(prog"; List.iter (fun s -> Buffer.add_char b ' '; dump_stmt b s) p; Buffer.add_string b ")";
+  Buffer.contents b
+
 (* ---------- case kinds ---------- *)
 let lex_case c =
   let src = str_of_string (unhex (field c "script")) in
@@ -94,9 +190,18 @@ let lex_case c =
       hxs (tokty_name t.tty) ^ ":" ^ hxs lit in
     Printf.printf "id=%s\ttokens=%s\n" (field c "id") (String.concat "," (List.map f ts))
 
+let parse_case c =
+  let src = str_of_string (unhex (field c "script")) in
+  match parse_script parse_float_oracle max_depth src with
+  | ParseOk p -> Printf.printf "id=%s\tparse=ok\tast=%s\n" (field c "id") (dump_program p)
+  | ParseReject -> Printf.printf "id=%s\tparse=reject\n" (field c "id")
+  | ParseNeed -> Printf.printf "id=%s\tneed=parse\n" (field c "id")
+  | ParseFuel -> Printf.printf "id=%s\tfuel=parse\n" (field c "id")
+
 let run_case c =
   match field c "kind" with
   | "lex" -> lex_case c
+  | "parse" -> parse_case c
   | k -> Printf.printf "id=%s\tunsupported=%s\n" (field c "id") k
 
 let () =
